@@ -220,6 +220,18 @@ class C07(Prop):
                             rsc.append(base[j])
                     for dests in ([], [1, 2], [0, 1, 0, 2]):
                         cases.append(mk_srv(8, 0, st, rsc, [], dests, 4, "pending-subsets", fam=26, cancel=[]))
+        # payloads read the way read_exact / read_buf do it: one ReadBuf polled until it is full, so the take is polled with
+        # already-filled bytes in front (destination codes 128 + d).  The model's drain offers fresh destinations, and the reader's
+        # script is consumed differently: these cases are judged by the segmentation checker alone.
+        for _ in range(600 if tier == "quick" else 12000):
+            size = rng.choice([4, 5, 8, 16, 32])
+            nreq = rng.randrange(1, 4)
+            st = self.build_stream(rng, size, nreq, rng.choice([size, size + 1, 7, 12]))
+            rsc = [(3, 0, 0) if rng.random() < 0.3 else (0, rng.choice([1, 1, 2, 3, 5, U64]), 0) for _ in range(rng.randrange(0, 14))]
+            dests = [128 + rng.choice([0, 1, 2, 3, 5, 8, 16, 64]) if rng.random() < 0.8 else rng.choice([0, 1, 2, 8]) for _ in range(rng.randrange(1, 6))]
+            c = mk_srv(size, rng.choice([0, 0, 3]), st, rsc, [], dests, nreq + 1, "accumulating-readbuf", fam=26, cancel=[])
+            c.meta["nomodel"] = True
+            cases.append(c)
         for _ in range(1500 if tier == "quick" else 30000):
             size = rng.choice([4, 5, 8, 16, 32])
             kind = rng.choice([0, 0, 0, 1, 2, 3])
@@ -266,7 +278,10 @@ class C07(Prop):
         m = case.meta
         def mk(**kw):
             d = dict(m); d.update(kw)
-            return mk_srv(d["size"], d["kind"], d["stream"], [tuple(t) for t in d["rsc"]], [tuple(t) for t in d["wsc"]], d["dests"], d["nreq"], "shrunk", fam=d["fam"], cancel=d["cancel"])
+            c = mk_srv(d["size"], d["kind"], d["stream"], [tuple(t) for t in d["rsc"]], [tuple(t) for t in d["wsc"]], d["dests"], d["nreq"], "shrunk", fam=d["fam"], cancel=d["cancel"])
+            if m.get("nomodel"):
+                c.meta["nomodel"] = True
+            return c
         if m["nreq"] > 1:
             yield mk(nreq=m["nreq"] - 1)
         for key in ("rsc", "wsc", "dests"):
